@@ -34,6 +34,13 @@ Definition check_prep (mdf nz : bool) (tol : Q) (sp : space) (o : obs) (seen : o
 Definition check_vect (fixed : bool) (sp : space) (o : obs) (seen : option nat) : bool :=
   opt_eqb Nat.eqb (vect_dim fixed sp o) seen.
 
+(* shared ids in order of first appearance *)
+Fixpoint dedup (seen l : list nat) : list nat :=
+  match l with
+  | [] => []
+  | x :: r => if existsb (Nat.eqb x) seen then dedup seen r else x :: dedup (x :: seen) r
+  end.
+
 (* routing: rows are tags (agent * 100 + env); the shared network is row-wise, so it is the identity on tags *)
 Definition route_eqb : list (nat * list nat) -> list (nat * list nat) -> bool :=
   list_eqb (fun p q => Nat.eqb (fst p) (fst q) && list_eqb Nat.eqb (snd p) (snd q)).
@@ -41,7 +48,7 @@ Definition route_eqb : list (nat * list nat) -> list (nat * list nat) -> bool :=
 Definition check_ippo (fixed : bool) (groups : list (nat * nat)) (agent_ids : list nat) (E : nat)
            (od : list (nat * list nat)) (seen : list (nat * list nat)) : bool :=
   let group := fun a => match lookup a groups with Some g => g | None => 0 end in
-  let gs := nodup Nat.eq_dec (map group agent_ids) in
+  let gs := dedup [] (map group agent_ids) in
   route_eqb (concat (map (fun g => ippo_route group fixed agent_ids E (fun x => x) od g) gs)) seen.
 
 Definition check_maddpg (fixed : bool) (agent_ids : list nat)
@@ -55,3 +62,26 @@ Definition check_disassemble (nagents : nat) (flat : list Q) (seen : list (list 
   list_eqb (list_eqb Qeq_bool) (disassemble nagents flat) seen.
 Definition check_assemble (outs : list (list Q)) (seen : list Q) : bool :=
   list_eqb Qeq_bool (assemble outs) seen.
+
+(* IPPO.preprocess_observation: per shared id, the prepared observations of its agents concatenated on dim 0 *)
+Fixpoint prep_all (mdf nz : bool) (l : leaf) (od : list (nat * tq)) : option (list (nat * list (list Q))) :=
+  match od with
+  | [] => Some []
+  | (a, t) :: od' =>
+    match prep_leaf mdf nz l t, prep_all mdf nz l od' with
+    | Some p, Some ps => Some ((a, rows p) :: ps)
+    | _, _ => None
+    end
+  end.
+Definition rows_eqb : list (list Q) -> list (list Q) -> bool := list_eqb (list_eqb Qeq_bool).
+Definition check_ippo_prep (fixed mdf nz : bool) (groups : list (nat * nat)) (agent_ids : list nat) (l : leaf)
+           (od : list (nat * tq)) (seen : option (list (nat * list (list Q)))) : bool :=
+  let group := fun a => match lookup a groups with Some g => g | None => 0 end in
+  let gs := dedup [] (map group agent_ids) in
+  match prep_all mdf nz l od, seen with
+  | Some odr, Some s =>
+    list_eqb (fun p q => Nat.eqb (fst p) (fst q) && rows_eqb (snd p) (snd q))
+             (map (fun g => (g, ippo_batch group fixed agent_ids odr g)) gs) s
+  | None, None => true
+  | _, _ => false
+  end.
